@@ -5,6 +5,10 @@ on stdin:  {"calls": [{"doc","kind","reuse"}, ...], "xmldir": <dir with <doc>.xm
 and answers on stdout with one JSON object
    {"g0": <digest of the watched globals after import>, "calls": [<observation record>, ...]}.
 
+Every call (+ the inspection of the watched globals after it) runs under a CPU-time budget (ITIMER_PROF) and the process
+under an address-space limit: a call that does not come back is recorded with verdict "no_termination" and the process
+executes no further call (the worker itself always terminates).
+
 It only drives pyx12 and projects what it sees (masking exactly the documented run-to-run differences); it takes no
 decision - the comparison with Fresh(doc, kind) is done by TLC (spec/T_Session.tla).
 """
@@ -14,6 +18,8 @@ import json
 import logging
 import os
 import re
+import resource
+import signal
 import sys
 import types
 from io import StringIO
@@ -30,6 +36,28 @@ import pyx12.x12n_document
 import pyx12.xmlx12_simple
 
 _RE_ADDR = re.compile(r'0x[0-9a-fA-F]{6,}')
+CPU_BUDGET = float(os.environ.get('C18_CALL_CPU', '45'))        # seconds of CPU time per call (ordinary calls need < 3)
+MEM_LIMIT = int(os.environ.get('C18_MEM_MB', '3072')) << 20     # address space of the worker
+
+
+class NoTermination(BaseException):
+    """the CPU budget of a call is used up (raised from the SIGPROF handler; not an Exception: pyx12 cannot swallow it)"""
+
+
+def _on_prof(signum, frame):
+    raise NoTermination()
+
+
+class Budget(object):
+    """CPU-time guard around one call; the timer keeps firing every second after the budget until it is disarmed"""
+    def __enter__(self):
+        signal.signal(signal.SIGPROF, _on_prof)
+        signal.setitimer(signal.ITIMER_PROF, CPU_BUDGET, 1.0)
+        return self
+
+    def __exit__(self, *a):
+        signal.setitimer(signal.ITIMER_PROF, 0, 0)
+        return False
 
 
 def digest(text):
@@ -265,6 +293,8 @@ def call_validate(doc, session, reuse):
             try:
                 r = pyx12.x12n_document.x12n_document(param, StringIO(c18_corpus.DOCS[doc]), fa, fh, fx)
                 verdict = repr(r)
+            except MemoryError:
+                raise
             except Exception as e:
                 verdict = exc_text(e)
     finally:
@@ -305,8 +335,54 @@ def _iterate(doc, param, loop_id, lines, errs):
                 lines.append(tag + '|err_ct=%s|start=%s|end=%s' % (node.err_ct, _ids(node.start_loops), _ids(node.end_loops)))
                 _node_errors(node, '%s:%s:%s' % (loop_id or '-', node.seg_count, node.id), errs)
         return 'ok:%d' % n
+    except MemoryError:
+        raise
     except Exception as e:
         return 'after %d %s' % (n, exc_text(e))
+
+
+def _events(node, tag, lines):
+    """the full event stream of iterate_loop_segments() of one node and the text of every segment below it"""
+    for ev in node.iterate_loop_segments():
+        if ev['type'] == 'seg':
+            lines.append('%s seg|%s|%s|%s|%s|start=%s|end=%s' % (tag, ev['id'], ev['segment'].format(), ev['seg_count'],
+                                                                 ev['cur_line_number'], _ids(ev['start_loops']), _ids(ev['end_loops'])))
+        else:
+            lines.append('%s %s|%s|%s' % (tag, ev['type'], ev['id'], getattr(ev['node'], 'id', '?')))
+    for d in node.iterate_segments():
+        lines.append('%s text|%s|%s' % (tag, d['id'], d['segment'].format()))
+
+
+def _loop_pass(doc, param, loop_id, do_copy, lines, errs):
+    n = 0
+    try:
+        rd = pyx12.x12context.X12ContextReader(param, pyx12.error_handler.errh_null(), StringIO(c18_corpus.DOCS[doc]))
+        for node in rd.iter_segments(loop_id):
+            n += 1
+            lines.append('%s|%s|%s|%s|%s' % ('L' if node.type == 'loop' else 'S', node.id, node.cur_path, node.seg_count, node.cur_line_number))
+            if do_copy:
+                dup = node.copy()
+                _events(dup, ' c', lines)
+            _events(node, ' o', lines)
+            if node.type != 'loop':
+                _node_errors(node, '%s:%s:%s' % (loop_id, node.seg_count, node.id), errs)
+        return 'ok:%d' % n
+    except MemoryError:
+        raise
+    except Exception as e:
+        return 'after %d %s' % (n, exc_text(e))
+
+
+def call_loops(doc, session, reuse, do_copy):
+    """iteration by loop id (one pass per loop id of c18_corpus.LOOPIDS[doc]); with do_copy every yielded node is copied first"""
+    param = session.get_param(reuse)
+    lines, errs, verdicts = [], [], []
+    with MapLoader(session, reuse):
+        for loop_id in c18_corpus.LOOPIDS[doc]:
+            lines.append('---- pass %s' % loop_id)
+            verdicts.append('%s %s' % (loop_id, _loop_pass(doc, param, loop_id, do_copy, lines, errs)))
+    gc.collect()
+    return {'verdict': '; '.join(verdicts), 'errors': errs, 'xml': '', 'html': '', 'ack': '', 'out': '\n'.join(lines) + '\n'}
 
 
 def call_context(doc, session, reuse):
@@ -325,30 +401,58 @@ def call_convert(doc, xmldir):
     try:
         r = pyx12.xmlx12_simple.convert(os.path.join(xmldir, doc + '.xml'), out)
         verdict = repr(r)
+    except MemoryError:
+        raise
     except Exception as e:
         verdict = exc_text(e)
     gc.collect()
     return {'verdict': verdict, 'errors': [], 'xml': '', 'html': '', 'ack': '', 'out': out.getvalue()}
 
 
+def do_call(kind, doc, reuse, session, xmldir):
+    if kind == 'validate':
+        return call_validate(doc, session, reuse)
+    if kind == 'context':
+        return call_context(doc, session, reuse)
+    if kind == 'convert':
+        return call_convert(doc, xmldir)
+    if kind in ('loops', 'loopcopy'):
+        return call_loops(doc, session, reuse, kind == 'loopcopy')
+    raise SystemExit('unknown call kind %r' % kind)
+
+
 def main():
     job = json.load(sys.stdin)
     full = job.get('full')
+    soft, hard = resource.getrlimit(resource.RLIMIT_AS)
+    if hard == resource.RLIM_INFINITY or hard > MEM_LIMIT:
+        resource.setrlimit(resource.RLIMIT_AS, (MEM_LIMIT, hard))
     session = Session()
     before = fingerprint()
     g = fp_digest(before)
     res = {'g0': g, 'hashseed': os.environ.get('PYTHONHASHSEED', ''), 'pyx12_file': pyx12.__file__, 'calls': []}
     for c in job['calls']:
         doc, kind, reuse = c['doc'], c['kind'], c['reuse']
-        if kind == 'validate':
-            o = call_validate(doc, session, reuse)
-        elif kind == 'context':
-            o = call_context(doc, session, reuse)
-        elif kind == 'convert':
-            o = call_convert(doc, job['xmldir'])
-        else:
-            raise SystemExit('unknown call kind %r' % kind)
-        after = fingerprint()
+        o = after = None
+        why = ''
+        try:
+            with Budget():
+                o = do_call(kind, doc, reuse, session, job['xmldir'])
+                after = fingerprint()
+        except NoTermination:
+            why = 'cpu budget of %g s used up %s' % (CPU_BUDGET, 'during the call' if o is None else 'while the watched globals were read after the call')
+        except MemoryError:
+            why = 'address space limit of %d MB reached' % (MEM_LIMIT >> 20)
+        if why:
+            # no result: recorded as such, and nothing further is executed in this process
+            nt = 'no_termination'
+            rec = {'doc': doc, 'kind': kind, 'reuse': reuse, 'verdict': nt, 'errors': nt, 'nerr': 0, 'xml': nt, 'html': nt, 'ack': nt,
+                   'out': nt, 'g': nt, 'gdiff': [], 'len': {}, 'why': why}
+            if full:
+                rec['text'] = {'errors': [why], 'xml': why, 'html': why, 'ack': why, 'out': why, 'raw_ack': ''}
+            res['calls'].append(rec)
+            res['aborted'] = why
+            break
         changed = fp_changes(before, after)
         if changed:
             g = fp_digest(after)      # a watched cell changed: new value of the abstract `globals` cell
@@ -369,6 +473,8 @@ def main():
         res['calls'].append(rec)
     sys.stdout.write(json.dumps(res))
     sys.stdout.flush()
+    if res.get('aborted'):
+        os._exit(0)        # do not spend time tearing down an exploded heap
 
 
 if __name__ == '__main__':
